@@ -18,6 +18,54 @@ EXPLANATION = (
     '(C02 R02.b and C10 R10.d cover arity and codec).')
 
 
+def bridge_pipeline(core):
+    """The vector handed to erased_serialize is `collect(map(into_iter(effects), |e| register(e)))` where `effects` is the result of
+    Core::process_event / Core::process; followed across helper functions.  Returns (ok, detail)."""
+    from rules.common import CallGraph, deep_origins
+    cg = CallGraph([core])
+    STOP = ['crux_core::core::Core::process_event', 'crux_core::core::Core::process']
+    sers = []
+    for f in core.built:
+        if '::bridge::' not in f.npath or f.j.get('exp'):
+            continue
+        for bb, t in f.calls('erased_serde::ser::Serialize::erased_serialize'):
+            if 'bridge::Request<' in (t['args'][0].get('t') or ''):
+                sers.append((f, bb, t))
+    if len(sers) != 1:
+        return False, 'expected one serialisation of the request batch, found %d' % len(sers)
+    f, bb, t = sers[0]
+    cur = [(f, t['args'][0])]
+    chain = []
+    clo = None
+    for want in ('collect', 'map'):
+        nxt = []
+        for g, op in cur:
+            for h, o in deep_origins(cg, g, op, stop_calls=STOP):
+                if o.kind != 'call' or last_seg(o.term.get('callee') or '') != want:
+                    return False, 'chain %s then %s' % (chain, (o.kind, last_seg(o.term.get('callee') or '') if o.kind == 'call' else ''))
+                if want == 'map':
+                    for x in origins(h, o.term['args'][1]):
+                        if x.kind == 'agg' and x.stmt['rv'].get('ak') == 'closure':
+                            clo = core.by_exact(x.stmt['rv']['def'])
+                nxt.append((h, o.term['args'][0]))
+        chain.append(want)
+        cur = nxt
+    roots = []
+    for g, op in cur:
+        roots += deep_origins(cg, g, op, stop_calls=STOP)
+    from_core = bool(roots) and all(o.kind == 'call' and call_matches(o.term, ['crux_core::core::Core::process_event', 'crux_core::core::Core::process'])
+                                    and [tok for tok in o.suffix if tok not in ('as Ok', '.0', 'as Continue')] == [] for h, o in roots) and \
+        len(set(last_seg(o.term['callee']) for h, o in roots)) == 2
+    one_register = False
+    if clo is not None:
+        regs = [(b2, t2) for b2, t2 in clo.calls('crux_core::bridge::registry::ResolveRegistry::register')]
+        one_register = len(regs) == 1 and not clo.in_cycle(regs[0][0]) and \
+            all(o.kind == 'arg' and o.n == 2 for o in origins(clo, regs[0][1]['args'][1])) and \
+            all(o.kind == 'call' and o.bb == regs[0][0] for o in origins(clo, {'l': 0, 'p': []}))
+    return (from_core and one_register), 'chain %s; effects come from both core entry points: %s; closure registers its argument once and returns the request: %s' % (
+        chain, from_core, one_register)
+
+
 def check(ctx, rep):
     rep.rule('R09.a', 'the effect id is the slab key; lookup and removal use the id parameter only', floor=3)
     rep.rule('R09.b', 'a registry entry is removed only once it has become Never, tested after resolve returned', floor=1)
@@ -132,44 +180,8 @@ def check(ctx, rep):
             rep.expect('R09.e', not tab['Never']['writes_self'] and tab['Never']['closure_calls'] == 0, 'Never-stays', 'the Never arm changes nothing',
                        'the Never arm of ResolveSerialized::resolve writes or calls something')
     # R09.c
-    bp = c06.method(core, 'crux_core::bridge::BridgeWithSerializer', 'process')
-    if bp is None:
-        rep.missing('R09.c', 'BridgeWithSerializer::process')
-    else:
-        sers = [(bb, t) for bb, t in bp.calls('erased_serde::ser::Serialize::erased_serialize')]
-        ok = False
-        detail = ''
-        if len(sers) == 1:
-            chain = []
-            cur = sers[0][1]['args'][0]
-            clo = None
-            for _ in range(8):
-                srcs = origins(bp, cur)
-                if len(srcs) != 1 or srcs[0].kind != 'call':
-                    break
-                t = srcs[0].term
-                seg = last_seg(t.get('callee') or '?')
-                chain.append(seg)
-                if seg == 'map':
-                    for o in origins(bp, t['args'][1]):
-                        if o.kind == 'agg' and o.stmt['rv'].get('ak') == 'closure':
-                            clo = core.by_exact(o.stmt['rv']['def'])
-                if seg in ('process_event', 'process'):
-                    break
-                cur = t['args'][0]
-            tail_ok = chain in (['collect', 'map'], ['collect', 'map', 'into_iter'])
-            final = origins(bp, cur)
-            from_core = bool(final) and all(o.kind == 'call' and last_seg(o.term.get('callee') or '') in ('process_event', 'process') and not o.suffix
-                                            for o in final) and len(set(o.bb for o in final)) == 2
-            one_register = False
-            if clo is not None:
-                regs = [(bb, t) for bb, t in clo.calls('crux_core::bridge::registry::ResolveRegistry::register')]
-                one_register = len(regs) == 1 and not clo.in_cycle(regs[0][0]) and \
-                    all(o.kind == 'arg' and o.n == 2 for o in origins(clo, regs[0][1]['args'][1])) and \
-                    all(o.kind == 'call' and o.bb == regs[0][0] for o in origins(clo, {'l': 0, 'p': []}))
-            ok = tail_ok and bool(from_core) and one_register
-            detail = 'chain %s; effects come from the core: %s; closure registers its argument once and returns the request: %s' % (chain, bool(from_core), one_register)
-        rep.expect('R09.c', ok, 'process|pipeline', detail, 'BridgeWithSerializer::process: the serialised vector is not effects.into_iter().map(register).collect() (%s)' % detail)
+    ok, detail = bridge_pipeline(core)
+    rep.expect('R09.c', ok, 'process|pipeline', detail, 'the bridge does not serialise exactly effects.into_iter().map(register).collect() of a core run (%s)' % detail)
     counts = c01.check_linear(rep, core, 'default', rid='R09.c', only=lambda f, ty: ('bridge' in f.npath) and ('Effect' in ty or 'bridge::Request' in ty))
     # R09.d
     n_ser = 0
